@@ -113,8 +113,8 @@ func (s *Server) typecheck(ctx context.Context, uri lsp.DocumentURI, version uin
 		rng, _, _ := strings.Cut(content[p.Origin.Offset:p.Origin.EndOffset], "\n")
 		res = append(res, lsp.Diagnostic{
 			Range: lsp.Range{
-				Start: lsp.Position{Line: uint32(p.Origin.Line - 1), Character: uint32(p.Origin.Column - 1)},
-				End:   lsp.Position{Line: uint32(p.Origin.Line - 1), Character: uint32(p.Origin.Column - 1 + len(rng))},
+				Start: position(content, p.Origin.Offset),
+				End:   position(content, p.Origin.Offset+len(rng)),
 			},
 			Severity: lsp.DiagnosticSeverityError,
 			Message:  p.Msg,
@@ -211,16 +211,36 @@ func (id id) Kind() int {
 }
 
 func (id id) Location(uri lsp.DocumentURI) lsp.Location {
-	line, col := id.Node.LineColumn()
-
-	// Note: this function does not handle Unicode correctly
+	content := id.Node.Tree().Text()
 	return lsp.Location{
 		URI: uri,
 		Range: lsp.Range{
-			Start: lsp.Position{Line: uint32(line - 1), Character: uint32(col - 1)},
-			End:   lsp.Position{Line: uint32(line - 1), Character: uint32(col - 1 + len(id.Node.Text()))},
+			Start: position(content, id.Node.Offset()),
+			End:   position(content, id.Node.Endoffset()),
 		},
 	}
+}
+
+// position converts a byte offset in content into an LSP position (0-based line and the
+// number of UTF-16 code units from the start of that line).
+func position(content string, offset int) lsp.Position {
+	lineStart := strings.LastIndexByte(content[:offset], '\n') + 1
+	return lsp.Position{
+		Line:      uint32(strings.Count(content[:lineStart], "\n")),
+		Character: uint32(utf16Len(content[lineStart:offset])),
+	}
+}
+
+// utf16Len returns the number of UTF-16 code units needed to encode s.
+func utf16Len(s string) int {
+	var ret int
+	for _, r := range s {
+		ret++
+		if r > 0xffff {
+			ret++
+		}
+	}
+	return ret
 }
 
 func collectIDs(ctx context.Context, filename, content string) []id {
